@@ -67,6 +67,14 @@ def actions(prog, f, cont, events, ev):
                 if m:
                     idxn = None
                     on = f.nodes[f.strip(f.call_obj(n), 'all')]
+                    hops = 0
+                    while on['k'] == 'DeclRefExpr' and on['decl'].get('dk') == 'local' and on['decl'].get('isref') and hops < 4:
+                        from paths import local_init
+                        ini = local_init(f, on['decl']['id'])
+                        if ini is None:
+                            break
+                        on = f.nodes[f.strip(ini, 'all')]
+                        hops += 1
                     if on['k'] == 'CXXOperatorCallExpr' and on.get('op') == '[]':
                         idxn = ev.ev(on['args'][1])
                     acts.append(('store', idxn, R.render(args[0])))
@@ -80,7 +88,16 @@ def actions(prog, f, cont, events, ev):
             l = R.render(lhs)
             if l.startswith(C + '['):
                 ln = f.nodes[f.strip(lhs, 'all')]
-                idxv = ev.ev(ln['args'][1]) if ln['k'] == 'CXXOperatorCallExpr' else None
+                hops = 0
+                while ln['k'] == 'DeclRefExpr' and ln['decl'].get('dk') == 'local' and ln['decl'].get('isref') and hops < 4:
+                    # a local reference to the slot: the element it was bound to
+                    from paths import local_init
+                    ini = local_init(f, ln['decl']['id'])
+                    if ini is None:
+                        break
+                    ln = f.nodes[f.strip(ini, 'all')]
+                    hops += 1
+                idxv = ev.ev(ln['args'][1]) if ln['k'] == 'CXXOperatorCallExpr' and ln.get('op') == '[]' else None
                 acts.append(('store', idxv, R.render(rhs)))
                 continue
         # anything else with an effect on this
@@ -98,6 +115,15 @@ def check_setter(prog, res, f, cont, el):
     inst = f.sig.split('(')[0].split('::')[-2] + '::' + f.name
     rows = 0
     bad = []
+    # a file-local helper that resizes / hands out the slot: its actions are not tabulated by this rule
+    Rq = Renderer(f)
+    for c in f.calls():
+        cf = prog.funcs.get(c['callee'].get('usr')) if c['callee'].get('inrepo') else None
+        if cf is not None and cf.body is not None and (cf.rec.get('internal') or '(anonymous namespace)' in cf.qname) and \
+                any(Rq.render(a) == 'this.' + cont for a in f.call_args(c)):
+            res.undecided('three-way', inst, f.loc(c['id']), 'the container is handed to the file-local helper %s, whose actions this rule does not tabulate [shape not read by the rule]' % cf.name,
+                          function=f.sig, expr='table')
+            return
     for size in (0, 1, 2, 3):
         for idx in (0, 1, 2, 3, 5, SIZE_MAX):
             model = {'arg1': idx, 'this.%s.size' % cont: size}
